@@ -6,7 +6,10 @@ import sys
 import jsonrpclib
 from jsonrpclib import jsonrpc
 import jsonrpclib.config
+import copy
+
 from harness.values import enc
+from harness.perturb import scribble
 
 WORDS = ["ping", "add", "x", "sum.of", "a.b.c", "méthode", "方法", "do it", "_p", "get_Value2"]
 
@@ -38,6 +41,9 @@ def concretise(a, rnd):
            "int": rnd.choice([5, 2 ** 53]), "neg": rnd.choice([-1, -99]), "frac": rnd.choice([1.5, -0.25])}[a["id"]]
     v = {"none": None, "1f": 1.0, "2f": 2.0, "1s": "1.0", "2s": "2.0"}[a["v"]]
     cfg = jsonrpclib.config.Config(version=1.0 if a["cv"] == "1" else 2.0)
+    if a["p"] in ("list", "dict", "elist", "edict", "none", "int", "str") and rnd.random() < 0.3:
+        # "default and custom Config": values that are JSON-normal already (no tuple) need no class translation
+        cfg.use_jsonclass = False
     return m, p, rid, v, cfg, fault
 
 
@@ -52,6 +58,17 @@ def run_case(a, judged, rnd):
     m, p, rid, v, cfg, fault = concretise(a, rnd)
     resp = True if a["resp"] else None
     notify = True if a["notify"] else None
+    prior = rnd.random() < 0.5
+    if prior:
+        # an earlier, equal call whose results were then modified in place by their owner (harness/perturb.py): the
+        # judged call below is a function of its own arguments only
+        def before():
+            pp = copy.deepcopy(p)
+            scribble(jsonrpc.dump(pp, m, rid, v, resp, notify, cfg))
+            t = jsonrpc.dumps(pp, m, methodresponse=resp, rpcid=rid, version=v, notify=notify, config=cfg)
+            scribble(jsonrpc.loads(t, cfg))
+            scribble(jsonrpc.loads(t, cfg))
+        call(before)
     d = call(lambda: jsonrpc.dump(p, m, rid, v, resp, notify, cfg))
     texts = []
 
@@ -98,8 +115,9 @@ def run_case(a, judged, rnd):
            "mixed": mixed,
            "rt": {"kind": rt["kind"], "msg": enc(rt["msg"])},
            "fresh": fresh if a["id"] in ("none", "empty") else [], "loadsempty": le,
-           "repr": "dump(%r, %r, rpcid=%r, version=%r, is_response=%r, is_notify=%r, config.version=%r)" % (
-               "Fault" if fault else p, m, rid, v, resp, notify, cfg.version)}
+           "repr": "dump(%r, %r, rpcid=%r, version=%r, is_response=%r, is_notify=%r, config.version=%r, use_jsonclass=%r)%s" % (
+               "Fault" if fault else p, m, rid, v, resp, notify, cfg.version, cfg.use_jsonclass,
+               " after an equal call whose results were modified in place" if prior else "")}
     return rec
 
 
